@@ -106,7 +106,12 @@ func (s *sorts) structSort(t types.Type, u *types.Struct) string {
 
 func (s *sorts) fieldAcc(t types.Type, i int) string {
 	u := t.Underlying().(*types.Struct)
-	return q("F:" + typeStr(t) + "." + u.Field(i).Name())
+	name := u.Field(i).Name()
+	if name == "_" {
+		// several blank fields may occur in one struct (padding, noCopy markers)
+		name = fmt.Sprintf("_%d", i)
+	}
+	return q("F:" + typeStr(t) + "." + name)
 }
 
 func (s *sorts) structCtor(t types.Type) string { return q("mk:" + typeStr(t)) }
